@@ -1,7 +1,7 @@
 //! Generators: produce raw trace commands per suite. All randomness comes from `Rng`.
 use std::net::SocketAddr;
 
-use chitchat::verif::{VKv, VNodeDelta};
+use chitchat::verif::{VKv, VNodeDelta, VNodeDigest};
 use chitchat::ChitchatId;
 
 use crate::fmt::*;
@@ -1216,5 +1216,111 @@ pub fn gen_server(seed: u64, tier: &Tier, shard: usize, nshards: usize, emit: &m
             "server",
             [(with_seed as u8).to_string(), plist("sends", script.iter()), plist("events", evs.iter()), t_end.to_string()],
         ));
+    }
+}
+
+// ------------------------------------------------------------------------------------------------
+// udp suite: the real UdpSocket on loopback — sends (small, oversized, unreachable) observed on the
+// wire, and raw datagrams (valid, trailing bytes, truncated, garbage) delivered to `recv`
+
+pub fn gen_udp(seed: u64, tier: &Tier, shard: usize, nshards: usize, emit: &mut dyn FnMut(String)) {
+    use crate::fmt::{p_msg, PDelta, PMsg};
+    let ncases = if tier.thorough { 4000 } else { 320 };
+    for i in 0..ncases {
+        if i % nshards != shard {
+            continue;
+        }
+        let mut rng = Rng::new(seed ^ ((i as u64) << 20) ^ 0x0D9);
+        emit(format!("(case udp-{i})"));
+        let nops = rng.range(2, 10);
+        for _ in 0..nops {
+            if rng.chance(3, 5) {
+                // a send
+                let nmem = match rng.below(8) {
+                    0 => 0,
+                    1 | 2 => rng.range(1, 5),
+                    3 => rng.range(20, 200),
+                    // around the datagram limit: 23 + 7 + 24 = 54 bytes per 10-byte-id IPv4 entry
+                    4 => rng.range(1205, 1220),
+                    _ => rng.range(1300, 1700),
+                } as usize;
+                let mut digest: Vec<VNodeDigest> = Vec::new();
+                for k in 0..nmem {
+                    let id = ChitchatId::new(format!("node-{k:05}"), 0, SocketAddr::from(([10, 0, (k / 256) as u8, (k % 256) as u8], 7000)));
+                    digest.push(VNodeDigest { chitchat_id: id, heartbeat: rng.below(1000), last_gc_version: rng.below(5), max_version: rng.below(50) });
+                }
+                digest.sort_by(|a, b| a.chitchat_id.cmp(&b.chitchat_id));
+                let empty = PDelta { serialized_len: 1, node_deltas: vec![] };
+                let msg = match rng.below(6) {
+                    0 => PMsg::BadCluster,
+                    1 => PMsg::Ack { delta: empty },
+                    2 => PMsg::SynAck { digest, delta: empty },
+                    _ => {
+                        let n = rand_len(&mut rng, false).min(300);
+                        PMsg::Syn { cluster_id: rand_string_any(&mut rng, n), digest }
+                    }
+                };
+                let dest = if rng.chance(1, 5) { "unreach" } else { "peer" };
+                emit(plist("usend", [p_msg(&msg), dest.to_string()]));
+            } else {
+                // a raw datagram for `recv`
+                let known = [node_id(1), node_id(2), node_id(3)];
+                let mut pool: Vec<String> = Vec::new();
+                let mut used: Vec<usize> = Vec::new();
+                for _ in 0..rng.range(0, 3) {
+                    let k = rng.below(3) as usize;
+                    if used.contains(&k) {
+                        continue;
+                    }
+                    used.push(k);
+                    pool.push(plist("opn", [p_id(&known[k]), rng.below(8).to_string(), rng.below(8).to_string()]));
+                    let mut v = 0;
+                    for _ in 0..rng.below(3) {
+                        v += 1 + rng.below(3);
+                        let st = rng.below(3) as u8;
+                        let kv = VKv { key: ["a", "b", "é", ""][rng.below(4) as usize].to_string(), value: if st == 1 { String::new() } else { "v".to_string() }, version: v, status: st };
+                        pool.push(plist("opk", [p_kvm(&kv)]));
+                    }
+                }
+                let bytes: Vec<Vec<u8>> = pool.iter().map(|o| enc_op_bytes(o)).collect();
+                let tag = [0u8, 1, 2, 3][rng.below(4) as usize];
+                let dg: Vec<(ChitchatId, u64, u64, u64)> = known.iter().take(rng.below(3) as usize).map(|id| (id.clone(), rng.range(1, 9), 0, rng.below(4))).collect();
+                let mut m = match tag {
+                    0 => {
+                        let mut m = vec![0x53, 0xB0, 0, 0];
+                        m.extend_from_slice(&stream_message(1, Some(&dg), &[], 16384)[4..]);
+                        // a SYN is the digest followed by the cluster id: drop the (empty) stream byte
+                        m.pop();
+                        let cid = ["c", "", "other"][rng.below(3) as usize];
+                        m.extend_from_slice(&(cid.len() as u16).to_le_bytes());
+                        m.extend_from_slice(cid.as_bytes());
+                        m
+                    }
+                    1 => stream_message(1, Some(&dg), &bytes, 16384),
+                    2 => stream_message(2, None, &bytes, 16384),
+                    _ => vec![0x53, 0xB0, 0, 3],
+                };
+                match rng.below(8) {
+                    0 => {
+                        let cut = rng.below(m.len() as u64 + 1) as usize;
+                        m.truncate(cut);
+                    }
+                    1 => {
+                        for _ in 0..rng.range(1, 9) {
+                            m.push(rng.next() as u8);
+                        }
+                    }
+                    2 => {
+                        let pos = rng.below(m.len() as u64) as usize;
+                        m[pos] ^= 1 << rng.below(8);
+                    }
+                    3 => {
+                        m = (0..rng.range(0, 80)).map(|_| rng.next() as u8).collect();
+                    }
+                    _ => {}
+                }
+                emit(plist("urecv", [hex(&m)]));
+            }
+        }
     }
 }
